@@ -12,6 +12,7 @@ import MatidGen.DimRule
 import MatidGen.ClusterRule
 import MatidGen.AnalyzerRule
 import MatidGen.SbcRule
+import MatidGen.ProtoRule
 
 open Matid Matid.Parse
 
@@ -364,6 +365,23 @@ def opAHist (args : List String) : String :=
     | _, _ => "bad-op"
   | _ => "bad-op"
 
+/-- `protodecide <totalValid> <dim> <seedInGraph> <cellFound> <d3> <nPerSpans> <nPerSel> <tooLong> <d2> <d2retry> <tooThick> <overlap>`
+(dimensionalities: a number, `none` or `error`) — acceptance tree of PeriodicFinder._find_proto_cell -/
+def opProtoDecide (args : List String) : String :=
+  open Matid.Proto in
+  let pd (s : String) : Option DimOut := if s == "error" then some .error else if s == "none" then some .none else s.toNat?.map .dim
+  let pb (s : String) : Option Bool := if s == "1" then some true else if s == "0" then some false else none
+  match args with
+  | [tv, dm, sg, cf, d3, np, ns, tl, d2, d2r, tt, ov] =>
+    match tv.toNat?, dm.toNat?, pb sg, pb cf, pd d3, np.toNat?, ns.toNat?, pb tl, pd d2, pd d2r, pb tt, pb ov with
+    | some tv, some dm, some sg, some cf, some d3, some np, some ns, some tl, some d2, some d2r, some tt, some ov =>
+      match protoDecide { totalValid := tv, dim := dm, seedInGraph := sg, cellFound := cf, d3 := d3, nPerSpans := np, nPerSelected := ns,
+                          tooLong := tl, d2 := d2, d2retry := d2r, tooThick := tt, overlap := ov } with
+      | none => "reject"
+      | some a => s!"accept {a.nSpans} {a.nPbc} {a.nPerSelected}"
+    | _, _, _, _, _, _, _, _, _, _, _, _ => "bad-op"
+  | _ => "bad-op"
+
 section sbc
 open Matid.SBC
 
@@ -524,6 +542,7 @@ def step (line : String) : String :=
   | "inertia" :: args => opInertia args
   | "cluster" :: args => opCluster args
   | "ahist" :: args => opAHist args
+  | "protodecide" :: args => opProtoDecide args
   | "sbcmerge" :: args => opSbcMerge args
   | "sbclocalize" :: args => opSbcLocalize args
   | "sbcclean" :: args => opSbcClean args
